@@ -21,13 +21,13 @@ func init() { Register(c14Checker{}) }
 func (c14Checker) ID() string { return "C14" }
 func (c14Checker) ProbeNames() []string {
 	return []string{"exec_fault_inside_include", "writer_fault_fired", "exec_fault_fired", "unbuffered_partial_output",
-		"context_rejected", "genuine_exec_error", "pair_fault", "lazy_include_executed", "stdlib_writer_run", "same_template_after_failure"}
+		"context_rejected", "genuine_exec_error", "pair_fault", "lazy_include_executed", "stdlib_writer_run", "same_template_after_failure", "exec_panic_fired"}
 }
 func (c14Checker) Meta() CheckerMeta {
 	return CheckerMeta{
 		Level: "fault_enumeration",
 		Rule: "programs x contexts are drawn by seed from the shared grammar (every tag, nested include/ssi/macro/block.Super/filter/spaceless/ifchanged, call-backs at output positions); " +
-			"per program a discovery run counts K call-back sites and J writer calls, then EVERY exec_err_at(k) (k=1..K, two error types) x four entry points and EVERY write_eio_at(j)/write_short_at(j) (j=1..J unbuffered, j=1 buffered) is executed, plus sampled (k,j) pairs; " +
+			"per program a discovery run counts K call-back sites and J writer calls, then EVERY exec_err_at(k) (k=1..K, two error types) x four entry points and EVERY write_eio_at(j)/write_short_at(j) (j=1..J unbuffered, j=1 buffered) is executed, plus sampled (k,j) pairs, a panic in caller code at sampled call-back positions, and writers that can also be flushed; " +
 			"evaluations = engine executions; a case is non-trivial when a fault fired; distinct = distinct (program, context, entry point, fault position, fault kind)",
 		Real:        []string{"pongo2 package (all four Execute* entry points, every tag/filter the generator writes)", "pongo2.FSLoader over the simulated fs.FS", "bytes.Buffer"},
 		Stub:        []string{"the caller's io.Writer (recording, faulting, sticky once failed)", "context call-backs y/yv/Cb, filter vsim, tag vsim (return the injected error)", "template files (in-memory disk)"},
@@ -44,7 +44,7 @@ type c14Case struct {
 func (c14Checker) Run(tp *Tapes, opt RunOpt) *Outcome {
 	out := &Outcome{Faults: map[string]int{}}
 	g := tp.Gen
-	sp := GenProgram(g, 6+g.DrawD(20, 50))
+	sp := GenProgramOpt(g, 6+g.DrawD(20, 50), true)
 	cd := GenCtxDesc(g)
 	loaderKind := []string{"fs", "virt", "http"}[g.Draw(3)]
 	disk := progDisk(sp)
@@ -61,9 +61,11 @@ func (c14Checker) Run(tp *Tapes, opt RunOpt) *Outcome {
 	var lastCase *c14Case
 	nontrivial := 0
 	// one execution on a freshly compiled template in a fresh world
+	wkind := 0 // kind of io.Writer handed to the engine (World.CallerWriter)
 	run := func(ep int, d CtxDesc, plan []FaultSpec) (*ExecResult, string) {
-		w := NewWorld([]*DiskSpec{disk})
+		w := NewWorld(disk)
 		w.Plan = plan
+		w.WriterKind = wkind
 		old := SetCurWorld(w)
 		defer SetCurWorld(old)
 		set := w.NewProgSet(sp, "P", loaderKind)
@@ -203,7 +205,7 @@ func (c14Checker) Run(tp *Tapes, opt RunOpt) *Outcome {
 	if agree(base[:], "fault-free") {
 		if base[0].Failed() {
 			out.probe("genuine_exec_error")
-			if cd.BadKey {
+			if cd.BadKey || (cd.Clash && sp.ExportsXM) {
 				out.probe("context_rejected")
 				for _, r := range base {
 					if r.Written != "" || r.Out != "" {
@@ -212,7 +214,7 @@ func (c14Checker) Run(tp *Tapes, opt RunOpt) *Outcome {
 				}
 			}
 			failedShape(base[:], "genuine error")
-		} else if !cd.MaybeFail && !cd.BadKey && visible(base[0]) != refOut {
+		} else if !cd.MaybeFail && !cd.BadKey && !cd.Clash && visible(base[0]) != refOut {
 			viol("variants_disagree", "fault-free repeat", "the same program and context rendered differently on two fresh compiles", refOut, base[0].String())
 		}
 	}
@@ -249,10 +251,17 @@ func (c14Checker) Run(tp *Tapes, opt RunOpt) *Outcome {
 				}
 			}
 			for j := 1; j <= jmax; j++ {
-				for _, fk := range []uint32{FWriteEIO, FWriteShort} {
+				for fi, fk := range []uint32{FWriteEIO, FWriteShort, FWriteEIO, FWriteEIO} {
+					// (the third and fourth round hand in a writer that can also be flushed)
+					wkind = []int{0, 0, 1, 2}[fi]
+					if wkind != 0 && (ep != EpExecuteWriter || j > 1) {
+						wkind = 0
+						continue
+					}
 					plan := []FaultSpec{{Site: KWrite, Task: -1, Op: -1, Occ: j - 1, Fault: fk, Param: uint32(g.Draw(len(WriterErrors))), Disk: -1}}
 					r, _ := run(ep, cd, plan)
-					what := FaultName(fk)
+					what := FaultName(fk) + []string{"", " flushable writer", " flushable writer"}[wkind]
+					wkind = 0
 					if r.Panic != "" {
 						viol("panic", r.Entry+" "+what+" "+panicKey(r.Panic), fmt.Sprintf("%s panicked when the caller's writer failed at call %d: %s", r.Entry, j, firstLine(r.Panic)), nil, r.String())
 						continue
@@ -293,10 +302,37 @@ func (c14Checker) Run(tp *Tapes, opt RunOpt) *Outcome {
 			}
 		}
 	}
+	// ---- the caller's own code panics at the k-th call-back ------------------------------------
+	// pongo2 promises nothing about surviving that, and nothing is asked here except what the
+	// statement says about a failed execution: whatever way the call ends, ExecuteWriter has
+	// handed nothing to the caller's writer, the unbuffered variant at most a leading part.
+	if !base[0].Failed() && len(out.Violations) == 0 && K > 0 {
+		seenK := map[int]bool{}
+		for _, k := range []int{1, K, 1 + tp.Fault.Draw(K), 1 + tp.Fault.Draw(K)} {
+			if seenK[k] {
+				continue
+			}
+			seenK[k] = true
+			plan := []FaultSpec{{Site: KCallback, Task: -1, Op: -1, Occ: k - 1, Fault: FExecPanic, Disk: -1}}
+			for _, ep := range []int{EpExecuteWriter, EpExecuteWriterUnbuffered} {
+				r, _ := run(ep, cd, plan)
+				out.probe("exec_panic_fired")
+				if !r.Failed() {
+					continue
+				}
+				if ep == EpExecuteWriter && (r.Written != "" || r.WCalls != 0) {
+					viol("buffered_partial_write", r.Entry+" exec_panic_at", "ExecuteWriter wrote to the caller's writer although the execution died (panic in caller code)", "", r.String())
+				}
+				if ep == EpExecuteWriterUnbuffered && !strings.HasPrefix(refOut, r.Written) {
+					viol("unbuffered_not_prefix", r.Entry+" exec_panic_at", "ExecuteWriterUnbuffered wrote bytes that are not a leading part of the successful output", refOut, r.String())
+				}
+			}
+		}
+	}
 	// ---- ExecuteWriter into standard-library writers ------------------------------------------
 	// The all-or-nothing promise must not depend on what kind of io.Writer the caller hands in.
 	stdWriter := func(kind int, d CtxDesc, plan []FaultSpec) (written string, err error, pan string) {
-		w := NewWorld([]*DiskSpec{disk})
+		w := NewWorld(disk)
 		w.Plan = plan
 		old := SetCurWorld(w)
 		defer SetCurWorld(old)
@@ -360,7 +396,7 @@ func (c14Checker) Run(tp *Tapes, opt RunOpt) *Outcome {
 	// "For the same template and context" the four entry points agree - also when an earlier
 	// execution of that very template died half-way through one of them.
 	if !base[0].Failed() && len(out.Violations) == 0 && K > 0 {
-		w := NewWorld([]*DiskSpec{disk})
+		w := NewWorld(disk)
 		old := SetCurWorld(w)
 		set := w.NewProgSet(sp, "P", loaderKind)
 		tpl, terr := set.FromFile(sp.Main)
